@@ -162,3 +162,57 @@ Theorem C28_bumper_wrap_prefix_refuted :
                 map (fun x => o_res (snd x)) (run prefix c zero_mem ops) = [RPtr 4294967288; RPtr 8].
 Proof. exists wrap_cfg, wrap_ops. destruct bumper_wrap_prefix as (A & B). now split. Qed.
 Print Assumptions C28_bumper_wrap_prefix_refuted.
+
+(* Rounding every request up to its block size is unobservable to the allocator, at the level of
+   whole runs (ProofsSlackRun.v).  [run ops] and [run (round_up ops)] side by side, entry by entry
+   ([same_call]): the same operation up to rounding, the same memory size after it, and for every
+   operation other than a guest load / store (Allocate, Deallocate, memory.grow, memory swap) the
+   same result — pointer, error or ok.  At the end ([final_agree]): the same allocator state
+   (bumper, free-list heads, poison flag, bytesAllocated, last observed size), memories of the same
+   size that agree at every address the rounded guest has not stored to, the same live pointers
+   (the rounded observer's ranges at least as long), and, unless poisoned, every header word of
+   every block carved so far equal in both memories.  Requests above 32 MiB are left alone by
+   [round_up] and fail identically.  Hypothesis besides those of C28_spec: the observer of the
+   rounded run never sees an environment assumption of [check] broken ([trace_void], computed from
+   the trace alone by folding [track]: no free through bytes the guest stored itself, no shrunk or
+   oversized memory).  It cannot be dropped (C28_round_up_observable_when_void: a header forged in
+   the slack is accepted by the rounded run; the original run skips the stores and the free fails). *)
+From C28 Require Import ProofsSlackRun.
+Theorem C28_round_up_unobservable : forall c init ops,
+  c_pages c <= max_wasm_pages ->
+  (forall a, align_up (c_hb c) <= a -> init a = 0) ->
+  trace_void c (run fixed c init (round_up ops)) = false ->
+  Forall2 same_call (run fixed c init ops) (run fixed c init (round_up ops)) /\
+  final_agree (final fixed c init ops) (final fixed c init (round_up ops)).
+Proof. exact round_up_unobservable. Qed.
+Print Assumptions C28_round_up_unobservable.
+
+(* hence C28_whole_block speaks about the original operation list: the allocator-facing
+   observations of [run ops] are, entry by entry, those of a trace that passes the whole-block
+   checker (the trace of the rounded run) *)
+Theorem C28_whole_block_transfer : forall c init ops,
+  c_pages c <= max_wasm_pages ->
+  (forall a, align_up (c_hb c) <= a -> init a = 0) ->
+  trace_void c (run fixed c init (round_up ops)) = false ->
+  exists tr, check c tr = true /\ Forall2 same_call (run fixed c init ops) tr.
+Proof. exact whole_block_transfer. Qed.
+Print Assumptions C28_whole_block_transfer.
+
+Theorem C28_round_up_observable_when_void :
+  trace_void forge_cfg (run fixed forge_cfg zero_mem (round_up forge_ops)) = true /\
+  map (fun x => o_res (snd x)) (run fixed forge_cfg zero_mem (round_up forge_ops)) = [RPtr 8; ROk; ROk; ROk] /\
+  map (fun x => o_res (snd x)) (run fixed forge_cfg zero_mem forge_ops) = [RPtr 8; RSkip; RSkip; RErr EEmptyHdr].
+Proof. exact round_up_observable_when_void. Qed.
+Print Assumptions C28_round_up_observable_when_void.
+
+(* non-vacuity: the run of C28_nonvacuous_slack (stores into the slack, a free, a reuse) meets the
+   hypothesis, and the allocator calls of the two runs answer alike *)
+Example C28_nonvacuous_unobservable :
+  let c := mkCfg 0 1 16 in
+  let ops := [OAlloc 5; OAlloc 9; OWrite 15 77; OWrite 39 88; OAlloc 100; ORead 39; OFree 24; OAlloc 3; ORead 15] in
+  trace_void c (run fixed c zero_mem (round_up ops)) = false
+  /\ map (fun x => o_res (snd x)) (filter (fun x => negb (is_guest (fst x))) (run fixed c zero_mem ops))
+     = [RPtr 8; RPtr 24; RPtr 48; ROk; RPtr 184]
+  /\ map (fun x => o_res (snd x)) (filter (fun x => negb (is_guest (fst x))) (run fixed c zero_mem (round_up ops)))
+     = [RPtr 8; RPtr 24; RPtr 48; ROk; RPtr 184].
+Proof. repeat split; vm_compute; reflexivity. Qed.
